@@ -285,8 +285,14 @@ func randGenerated(r *rng.R) (generated, func(wire.Value) (generated, error), fu
 	case 0:
 		v := &verifgen.PrimitiveRequiredStruct{BoolField: r.Bool(), ByteField: int8(r.U64()), Int16Field: int16(r.U64()),
 			Int32Field: int32(r.U64()), Int64Field: int64(r.U64()), DoubleField: randDouble(r), StringField: randString(r), BinaryField: r.Bytes(r.Intn(20))}
-		return v, func(w wire.Value) (generated, error) { x := &verifgen.PrimitiveRequiredStruct{}; return x, x.FromWire(w) },
-			func(sr stream.Reader) (generated, error) { x := &verifgen.PrimitiveRequiredStruct{}; return x, x.Decode(sr) }
+		return v, func(w wire.Value) (generated, error) {
+				x := &verifgen.PrimitiveRequiredStruct{}
+				return x, x.FromWire(w)
+			},
+			func(sr stream.Reader) (generated, error) {
+				x := &verifgen.PrimitiveRequiredStruct{}
+				return x, x.Decode(sr)
+			}
 	case 1:
 		g := &verifgen.Graph{Edges: []*verifgen.Edge{}}
 		for k := r.Intn(6); k > 0; k-- {
@@ -684,79 +690,83 @@ func main() {
 	res := &result{Hist: map[string]int{}}
 	ks := []int{2, 3, 8, 17, 64}
 	reps := 30
+	roundsPer := 6
 	if *tier == "thorough" {
 		ks = []int{2, 3, 4, 5, 8, 13, 17, 32, 48, 64}
 		reps = 60
+		roundsPer = 30
 	}
 	seenModel := map[string]bool{}
 	for _, procs := range []int{1, 2, 16} {
 		runtime.GOMAXPROCS(procs)
 		for _, k := range ks {
-			ops := randomOps(r, k)
-			base := make([]string, k)
-			for i, o := range ops {
-				base[i] = o.run()
-				if !seenModel[o.model+"\x00"+base[i]] {
-					seenModel[o.model+"\x00"+base[i]] = true
-					res.ModelOps = append(res.ModelOps, modelOp{Driver: "wire", Op: o.model, Impl: base[i], Kind: "C18 " + o.kind + " alone vs wire model"})
-				}
-				res.Hist[o.kind]++
-			}
-			// concurrent execution
-			stop := make(chan struct{})
-			var gcs sync.WaitGroup
-			gcs.Add(1)
-			go func() {
-				defer gcs.Done()
-				for {
-					select {
-					case <-stop:
-						return
-					default:
-						runtime.GC()
-						time.Sleep(200 * time.Microsecond)
+			for round := 0; round < roundsPer; round++ {
+				ops := randomOps(r, k)
+				base := make([]string, k)
+				for i, o := range ops {
+					base[i] = o.run()
+					if !seenModel[o.model+"\x00"+base[i]] {
+						seenModel[o.model+"\x00"+base[i]] = true
+						res.ModelOps = append(res.ModelOps, modelOp{Driver: "wire", Op: o.model, Impl: base[i], Kind: "C18 " + o.kind + " alone vs wire model"})
 					}
+					res.Hist[o.kind]++
 				}
-			}()
-			yields := make([]int, k)
-			for i := range yields {
-				yields[i] = r.Intn(4)
-			}
-			var wg sync.WaitGroup
-			var mu sync.Mutex
-			start := make(chan struct{})
-			for i := 0; i < k; i++ {
-				wg.Add(1)
-				go func(i int) {
-					defer wg.Done()
-					<-start
-					for rep := 0; rep < reps; rep++ {
-						for y := 0; y < yields[i]; y++ {
-							runtime.Gosched()
+				// concurrent execution
+				stop := make(chan struct{})
+				var gcs sync.WaitGroup
+				gcs.Add(1)
+				go func() {
+					defer gcs.Done()
+					for {
+						select {
+						case <-stop:
+							return
+						default:
+							runtime.GC()
+							time.Sleep(200 * time.Microsecond)
 						}
-						got := ops[i].run()
-						if got != base[i] {
-							mu.Lock()
-							if len(res.Mismatches) < 30 {
-								res.Mismatches = append(res.Mismatches, mismatch{Kind: "C18 concurrent result differs from sequential result (" + ops[i].kind + ")",
-									Input: fmt.Sprintf("GOMAXPROCS=%d K=%d op %d: %s", procs, k, i, ops[i].model), Got: got, Want: base[i]})
+					}
+				}()
+				yields := make([]int, k)
+				for i := range yields {
+					yields[i] = r.Intn(4)
+				}
+				var wg sync.WaitGroup
+				var mu sync.Mutex
+				start := make(chan struct{})
+				for i := 0; i < k; i++ {
+					wg.Add(1)
+					go func(i int) {
+						defer wg.Done()
+						<-start
+						for rep := 0; rep < reps; rep++ {
+							for y := 0; y < yields[i]; y++ {
+								runtime.Gosched()
 							}
-							mu.Unlock()
+							got := ops[i].run()
+							if got != base[i] {
+								mu.Lock()
+								if len(res.Mismatches) < 30 {
+									res.Mismatches = append(res.Mismatches, mismatch{Kind: "C18 concurrent result differs from sequential result (" + ops[i].kind + ")",
+										Input: fmt.Sprintf("GOMAXPROCS=%d K=%d op %d: %s", procs, k, i, ops[i].model), Got: got, Want: base[i]})
+								}
+								mu.Unlock()
+							}
 						}
-					}
-				}(i)
+					}(i)
+				}
+				close(start)
+				wg.Wait()
+				close(stop)
+				gcs.Wait()
+				res.Rounds++
+				res.Ops += k
+				res.Executions += k * (reps + 1)
+				res.Hist[fmt.Sprintf("GOMAXPROCS=%d", procs)] += k
+				res.Hist[fmt.Sprintf("K=%d", k)]++
+				sendRound(r, k, res)
+				mergeRound(r, k, res)
 			}
-			close(start)
-			wg.Wait()
-			close(stop)
-			gcs.Wait()
-			res.Rounds++
-			res.Ops += k
-			res.Executions += k * (reps + 1)
-			res.Hist[fmt.Sprintf("GOMAXPROCS=%d", procs)] += k
-			res.Hist[fmt.Sprintf("K=%d", k)]++
-			sendRound(r, k, res)
-			mergeRound(r, k, res)
 		}
 	}
 	b, _ := json.Marshal(res)
